@@ -29,48 +29,6 @@ theorem removeItem_get_ne (it : Item) (H H' : Hooks) (o : Observable) (hne : it.
     have : ¬ o = it.1 := fun e => hne e.symm
     simp [this]
 
-theorem applyOwn_frame (rm : Bool) (its : List Item) (H : Hooks) (done : List Item) (o : Observable)
-    (hne : ∀ it ∈ its, it.1 ≠ o) (hd : ∀ it ∈ done, it.1 ≠ o) :
-    (applyOwn rm its H done).1.get o = H.get o ∧ ∀ it ∈ (applyOwn rm its H done).2.1, it.1 ≠ o := by
-  induction its generalizing H done with
-  | nil => exact ⟨rfl, hd⟩
-  | cons it its ih =>
-    have hit := hne it (List.mem_cons_self ..)
-    have hrest : ∀ i ∈ its, i.1 ≠ o := fun i hi => hne i (List.mem_cons_of_mem _ hi)
-    have hd' : ∀ i ∈ it :: done, i.1 ≠ o := by
-      intro i hi
-      cases hi with
-      | head => exact hit
-      | tail _ h => exact hd i h
-    cases rm with
-    | true =>
-      simp only [applyOwn, if_true]
-      cases hr : removeItem it H with
-      | error e => exact ⟨rfl, hd⟩
-      | ok H' =>
-        obtain ⟨a, b⟩ := ih H' _ hrest hd'
-        exact ⟨by rw [a, removeItem_get_ne it H H' o hit hr], b⟩
-    | false =>
-      simp only [applyOwn, Bool.false_eq_true, if_false]
-      obtain ⟨a, b⟩ := ih (addItem it H) _ hrest hd'
-      exact ⟨by rw [a, addItem_get_ne it H o hit], b⟩
-
-theorem undo_frame (rm : Bool) (done : List Item) (H : Hooks) (o : Observable) (hd : ∀ it ∈ done, it.1 ≠ o) :
-    (undo rm done H).get o = H.get o := by
-  induction done generalizing H with
-  | nil => rfl
-  | cons it done ih =>
-    have hit := hd it (List.mem_cons_self ..)
-    simp only [undo]
-    rw [ih _ (fun i hi => hd i (List.mem_cons_of_mem _ hi))]
-    cases rm with
-    | true => simp only [if_true]; exact addItem_get_ne it H o hit
-    | false =>
-      simp only [Bool.false_eq_true, if_false]
-      cases hr : removeItem it H with
-      | error e => rfl
-      | ok H' => exact removeItem_get_ne it H H' o hit hr
-
 theorem foldRes_frame (f : W → Hooks → Res) (o : Observable) (ys : List W) (H : Hooks)
     (hf : ∀ y ∈ ys, ∀ H', (f y H').H.get o = H'.get o) : (foldRes f ys H).H.get o = H.get o := by
   induction ys generalizing H with
@@ -81,130 +39,13 @@ theorem foldRes_frame (f : W → Hooks → Res) (o : Observable) (ys : List W) (
     · exact hf y (List.mem_cons_self ..) H
     · rw [ih _ (fun y' hy' => hf y' (List.mem_cons_of_mem _ hy')), hf y (List.mem_cons_self ..) H]
 
-/-- A walk leaves untouched every observable none of its from-scratch items sits on
-(whether it succeeds or raises). -/
-theorem addRemove_frame (h : Heap) (k : HKey) (o : Observable) :
-    ∀ g : Graph, ∀ (rm extra : Bool) (x : W) (H : Hooks), (∀ it ∈ hookList h k extra g x, it.1 ≠ o) →
-      (addRemove h k rm extra g x H).H.get o = H.get o := by
-  apply Graph.ind (P := fun g => ∀ (rm extra : Bool) (x : W) (H : Hooks),
-    (∀ it ∈ hookList h k extra g x, it.1 ≠ o) → (addRemove h k rm extra g x H).H.get o = H.get o)
-  intro ob cs ih rm extra x H hno
-  -- the pieces of the from-scratch list
-  have hown : ∀ it ∈ ownItems h k ob cs x, it.1 ≠ o := fun it hit => hno it (mem_hookList_own h k extra ob cs x it hit)
-  have hnotif : ∀ (rm : Bool) (H : Hooks) (done : List Item), (∀ it ∈ done, it.1 ≠ o) →
-      (notifStep h k rm ob x H done).1.get o = H.get o ∧ ∀ it ∈ (notifStep h k rm ob x H done).2.1, it.1 ≠ o := by
-    intro rm H done hd
-    unfold notifStep
-    split
-    · rename_i hn
-      split
-      · exact ⟨rfl, hd⟩
-      · rename_i os hos
-        apply applyOwn_frame rm _ H done o _ hd
-        intro it hit
-        apply hown
-        simp only [ownItems, hos, okOr, hn, if_true, List.mem_append]
-        exact Or.inl hit
-    · exact ⟨rfl, hd⟩
-  have hmaint : ∀ (rm : Bool) (H : Hooks) (done : List Item), (∀ it ∈ done, it.1 ≠ o) →
-      (maintStep h k rm ob cs x H done).1.get o = H.get o ∧ ∀ it ∈ (maintStep h k rm ob cs x H done).2.1, it.1 ≠ o := by
-    intro rm H done hd
-    unfold maintStep
-    split
-    · exact ⟨rfl, hd⟩
-    · rename_i os hos
-      apply applyOwn_frame rm _ H done o _ hd
-      intro it hit
-      apply hown
-      simp only [ownItems, hos, okOr, List.mem_append]
-      exact Or.inr hit
-  have hextra : ∀ (rm : Bool) (H : Hooks), extra = true → (extraStep h k rm (.node ob cs) x H).H.get o = H.get o := by
-    intro rm H hex
-    unfold extraStep
-    split
-    · rfl
-    · rename_i os hos
-      have hi : ∀ it ∈ os.map (fun o' => (o', NKey.maint .added (.node ob cs) k)), it.1 ≠ o := by
-        intro it hit
-        apply hno
-        rw [hookList_node]
-        simp only [Graph.ob] at hos
-        simp only [hex, if_true, extraItems, hos, okOr, List.mem_append]
-        exact Or.inr hit
-      obtain ⟨a, b⟩ := applyOwn_frame rm _ H [] o hi (by intro it hit; cases hit)
-      simp only []
-      split
-      · rw [undo_frame rm _ _ o b, a]
-      · exact a
-  have hCs : ∀ (rm : Bool) (cs' : List Graph), (∀ c ∈ cs', c ∈ cs) → ∀ H,
-      (addRemoveCs h k rm ob x cs' H).H.get o = H.get o := by
-    intro rm cs'
-    induction cs' with
-    | nil => intro _ H; rfl
-    | cons c cs' ihc =>
-      intro hsub H
-      simp only [addRemoveCs]
-      split
-      · rfl
-      · rename_i ys hys
-        have h1 : (foldRes (addRemove h k rm true c) ys H).H.get o = H.get o := by
-          apply foldRes_frame
-          intro y hy H'
-          apply ih c (hsub c (List.mem_cons_self ..)) rm true y H'
-          intro it hit
-          exact hno it (mem_hookList_child h k extra ob cs x it c (hsub c (List.mem_cons_self ..)) y
-            (by rw [hys]; exact hy) hit)
-        split
-        · exact h1
-        · rw [ihc (fun c' hc' => hsub c' (List.mem_cons_of_mem _ hc')), h1]
-  cases rm with
-  | true =>
-    rw [addRemove_rm_unfold]
-    have r1 : (if extra then extraStep h k true (.node ob cs) x H else ⟨H, none⟩ : Res).H.get o = H.get o := by
-      split
-      · rename_i hex; exact hextra true H hex
-      · rfl
-    simp only []
-    split
-    · exact r1
-    · have r2 := hCs true cs (fun c hc => hc)
-        (if extra then extraStep h k true (.node ob cs) x H else ⟨H, none⟩ : Res).H
-      split
-      · rw [r2, r1]
-      · obtain ⟨a3, b3⟩ := hmaint true (addRemoveCs h k true ob x cs
-          (if extra then extraStep h k true (.node ob cs) x H else ⟨H, none⟩ : Res).H).H [] (by intro it hit; cases hit)
-        split
-        · rw [undo_frame true _ _ o b3, a3, r2, r1]
-        · obtain ⟨a4, b4⟩ := hnotif true (maintStep h k true ob cs x (addRemoveCs h k true ob x cs
-            (if extra then extraStep h k true (.node ob cs) x H else ⟨H, none⟩ : Res).H).H []).1 _ b3
-          split
-          · rw [undo_frame true _ _ o b4, a4, a3, r2, r1]
-          · rw [a4, a3, r2, r1]
-  | false =>
-    rw [addRemove_add_unfold]
-    obtain ⟨a1, b1⟩ := hnotif false H [] (by intro it hit; cases hit)
-    simp only []
-    split
-    · rw [undo_frame false _ _ o b1, a1]
-    · obtain ⟨a2, b2⟩ := hmaint false (notifStep h k false ob x H []).1 _ b1
-      split
-      · rw [undo_frame false _ _ o b2, a2, a1]
-      · have r3 := hCs false cs (fun c hc => hc)
-          (maintStep h k false ob cs x (notifStep h k false ob x H []).1 (notifStep h k false ob x H []).2.1).1
-        split
-        · rw [undo_frame false _ _ o b2, r3, a2, a1]
-        · have r4 : (if extra then extraStep h k false (.node ob cs) x
-              (addRemoveCs h k false ob x cs (maintStep h k false ob cs x (notifStep h k false ob x H []).1
-                (notifStep h k false ob x H []).2.1).1).H else
-              ⟨(addRemoveCs h k false ob x cs (maintStep h k false ob cs x (notifStep h k false ob x H []).1
-                (notifStep h k false ob x H []).2.1).1).H, none⟩ : Res).H.get o =
-              (addRemoveCs h k false ob x cs (maintStep h k false ob cs x (notifStep h k false ob x H []).1
-                (notifStep h k false ob x H []).2.1).1).H.get o := by
-            split
-            · rename_i hex; exact hextra false _ hex
-            · rfl
-          split
-          · rw [undo_frame false _ _ o b2, r4, r3, a2, a1]
-          · rw [r4, r3, a2, a1]
+/-- A call leaves untouched every observable none of its from-scratch items sits on
+(whether it succeeds or raises and rolls back). -/
+theorem addRemove_frame (h : Heap) (k : HKey) (o : Observable) (g : Graph) (rm extra : Bool) (x : W) (H : Hooks)
+    (hno : ∀ it ∈ hookList h k extra g x, it.1 ≠ o) : (addRemove h k rm extra g x H).H.get o = H.get o :=
+  addRemove_touch (fun H' => H'.get o = H.get o) (fun it => it.1 ≠ o)
+    (fun it H' hi hP => by rw [addItem_get_ne it H' o hi]; exact hP)
+    (fun it H' H'' hi hP hr => by rw [removeItem_get_ne it H' H'' o hi hr]; exact hP)
+    h k g rm extra x H hno rfl
 
 end TraitsVerif.Model.Obs
